@@ -1,4 +1,4 @@
-SPECIFICATION SpecNums
+SPECIFICATION SpecStr
 CONSTANTS
   Bug = ""
   N0 = 0
@@ -9,9 +9,9 @@ CONSTANTS
   MaxArgs = 0
   Fns = {}
   Rich = FALSE
-  TextLen = 0
+  TextLen = 5
   Chars = {}
-  IntParts = {0, 16383}
+  IntParts = {}
   Sample = 1
-INVARIANTS InvScanPrint InvUnitsAsInTeX
+INVARIANTS InvStrRoundTrip
 CHECK_DEADLOCK FALSE
